@@ -16,6 +16,7 @@ package otter
 // anything negative or not a multiple of the scale as BAD=-2.
 
 import (
+	"io"
 	"bufio"
 	"bytes"
 	"context"
@@ -80,6 +81,27 @@ type seqOp struct {
 	CC       int     `json:"cc"`    // 1 = the call is made with an already cancelled context (the scripted loaders ignore it)
 	Dt       int64   `json:"dt"`    // SaveLoad: clock offset between save and load (units)
 	Max2     int64   `json:"max2"`  // SaveLoad: target maximum (0 = same as source)
+	Slow     int64   `json:"slow"`  // SaveLoad: the target's clock moves by this many units while the stream is half read
+}
+
+// slowReader hands out one byte per Read and calls f once, when `at` bytes have been read
+type slowReader struct {
+	r     *bytes.Buffer
+	n, at int
+	f     func()
+}
+
+func (s *slowReader) Read(p []byte) (int, error) {
+	if len(p) == 0 {
+		return 0, nil
+	}
+	if s.n == s.at && s.f != nil {
+		s.f()
+		s.f = nil
+	}
+	n, err := s.r.Read(p[:1])
+	s.n += n
+	return n, err
 }
 
 type seqScript struct {
@@ -767,7 +789,11 @@ func (r *seqRun) saveLoad(op *seqOp, rec *trRec) {
 	if r.cfg.Size != "none" {
 		t.SetMaximum(uint64(max2))
 	}
-	if err := LoadCacheFrom(t, &buf); err != nil {
+	var src io.Reader = &buf
+	if op.Slow > 0 {
+		src = &slowReader{r: &buf, at: buf.Len() / 2, f: func() { clk2.now.Add(op.Slow * r.cfg.Scale) }}
+	}
+	if err := LoadCacheFrom(t, src); err != nil {
 		rec.Err = "other"
 		return
 	}
